@@ -1,7 +1,7 @@
 #!/bin/bash
 # seedtest.sh <patch.diff> <property-id>... : apply a property-breaking change to /repo,
 # run the given checks (quick tier), undo the change.  Prints one line per check.
-patch=$1; shift
+patch=$(readlink -f "$1"); shift
 cd /repo || exit 2
 if [ -n "$(git status --porcelain --untracked-files=no)" ]; then echo "/repo not clean"; exit 2; fi
 git apply "$patch" 2>/dev/null || { echo "patch does not apply to the current tree (port it by hand)"; git reset -q --hard; exit 2; }
